@@ -11,7 +11,7 @@ from pyvc.ghost import conj, disj, implies, iff, uf_str, symbolic_run
 from contracts.shapes import mk_any_token
 from kernpy.core.document import Document, Node
 from kernpy.core.tokens import NoteRestToken, TokenCategory
-from kernpy.core.transposer import transpose, IntervalsByName
+from kernpy.core.transposer import transpose, IntervalsByName, AVAILABLE_INTERVALS
 
 DOC = 'kernpy.core.document.Document.'
 A_QUEUE = 'A-queue: queue.Queue used by a single thread is a first-in first-out list (get returns the oldest element, put appends)'
@@ -79,7 +79,7 @@ class to_transposed_step:
         token = None if kind == 'root' else mk_any_token(g, kind)
         node = mk_queue_node(g, token)
         waiting = g.mlist('queue.rest', lambda e: e.new(Node, {'id': e.int('id')}, None))
-        interval = g.choice('interval', ['P5', 'm2', 'd2', 'P1'])
+        interval = g.choice('interval', sorted(AVAILABLE_INTERVALS))        # all 40 names (the table lookup needs a concrete key)
         return {'interval': interval, 'direction': g.choice('direction', ['up', 'down']), 'queue': Fifo(node, waiting),
                 '_first': node, '_token': token, '_waiting': waiting.copy(), '_kind': kind}
 
